@@ -36,6 +36,17 @@ macro_rules! prim_int {
                 }
                 if ($t::MAX as i128) > 5_000_000_000 {
                     v.extend([2147483647i128 as $t, 2147483648i128 as $t, 4294967295i128 as $t, 4294967296i128 as $t]);
+                    // 64-bit values that are not representable in f64 and sit just past an f32 rounding midpoint:
+                    // a conversion that goes through f64 first rounds them differently from the direct one
+                    v.extend([((1i128 << 60) + (1 << 36) + 1) as $t, ((1i128 << 53) + 1) as $t, ((1i128 << 54) + 3) as $t,
+                              ((1i128 << 62) + (1 << 38) + 1) as $t, ((1i128 << 61) + (1 << 37) + 1) as $t,
+                              ((1i128 << 57) - 1) as $t, ((1i128 << 62) - 1) as $t]);
+                    if ($t::MIN as i128) < 0 {
+                        v.extend([(-((1i128 << 60) + (1 << 36) + 1)) as $t, (-((1i128 << 53) + 1)) as $t,
+                                  (-((1i128 << 62) + (1 << 38) + 1)) as $t]);
+                    } else {
+                        v.extend([((1i128 << 63) + (1 << 39) + 1) as $t, ((1i128 << 63) + (1 << 10) + 1) as $t]);
+                    }
                 }
                 v
             }
@@ -83,7 +94,8 @@ fn component_cases<S: Prim, T: Prim>(k: usize) -> Vec<Vec<S>> {
     let bad: Vec<S> = samples.iter().copied().filter(|s| <T as NumCast>::from(*s).is_none()).collect();
     let mut out = vec![];
     if !ok.is_empty() {
-        for r in 0..ok.len().min(6) {
+        // every castable sample appears at every component position
+        for r in 0..ok.len() {
             out.push((0..k).map(|i| ok[(r + i * 3 + i) % ok.len()]).collect());
         }
     }
